@@ -9,9 +9,10 @@ sys.path.insert(0, '.')
 ALL = [f'C{i:02d}' for i in range(1, 21)]
 HOOK_COMMITS = [l.strip() for l in open('tools/hook_commits.txt')] if os.path.exists('tools/hook_commits.txt') else []
 checks, na = [], []
+REGISTERED = set(open('tools/registered.txt').read().split())
 for pid in ALL:
     path = f'harness/props/{pid.lower()}.py'
-    if not os.path.exists(path):
+    if not os.path.exists(path) or pid not in REGISTERED:
         na.append({'property_id': pid,
                    'reason': 'not claimed yet: model/theorems/correspondence for this property are not built in '
                              'this tree (the technique applies; see DESIGN.md §7 for the plan)'})
